@@ -60,8 +60,8 @@ func c12(c *Ctx) {
 	if len(r.Broken) > 0 {
 		return
 	}
-	r.Explanation = "Partial: a routing table over all send sites and an identity discipline. (T1) recipients are written only by the six send helpers, and each helper adds exactly what its name says (no extra filter, the one exclusion in sendChannelButOne compares with its user parameter); (T2) every call of a send helper in a handler is classified by the message it sends (command class, prefix class) and by helper + recipient, and must match a row of the routing table; (T3) in client-reachable code a relayed line's prefix is the server prefix, a session's own cached prefix, or a saved copy of it; the incoming message's prefix is never read there; (T4) Nick/Username assignments are followed by updateIrcPrefix, which is the only writer of the cached prefix besides SERVER and snapshot load; (T5) the delivery filters; (T6) +n and +G in PRIVMSG. Whether the recipient set computed by a helper equals true membership at that moment is C14 (pairing) plus history."
-	r.Rules = []string{"C12.T1 helpers add exactly their recipients", "C12.T2 routing table", "C12.T3 real identity", "C12.T4 prefix freshness", "C12.T5 delivery filter", "C12.T6 +n and +G"}
+	r.Explanation = "Partial: a routing table over all send sites and an identity discipline. (T1) recipients are written only by the six send helpers, and each helper adds exactly what its name says (no extra filter, the one exclusion in sendChannelButOne compares with its user parameter); (T2) every call of a send helper in a handler is classified by the message it sends (command class, prefix class) and by helper + recipient, and must match a row of the routing table; (T3) in client-reachable code a relayed line's prefix is the server prefix, a session's own cached prefix, or a saved copy of it; the incoming message's prefix is never read there; (T4) Nick/Username assignments are followed by updateIrcPrefix, which is the only writer of the cached prefix besides SERVER and snapshot load; (T5) the delivery filters; (T6) +n and +G in PRIVMSG; (T7) send() de-duplicates by message pointer, so no write to a message variable is reachable from a send of it. Whether the recipient set computed by a helper equals true membership at that moment is C14 (pairing) plus history."
+	r.Rules = []string{"C12.T1 helpers add exactly their recipients", "C12.T2 routing table", "C12.T3 real identity", "C12.T4 prefix freshness", "C12.T5 delivery filter", "C12.T6 +n and +G", "C12.T7 a sent message object is not modified and re-sent"}
 
 	c.c12Helpers(f)
 
@@ -239,6 +239,7 @@ func c12(c *Ctx) {
 	c.c12Freshness(f)
 	c.c12Filters(f)
 	c.c12Privmsg(f)
+	c.c12NoReuse(f)
 }
 
 func itoa(n int) string {
@@ -786,6 +787,93 @@ func (c *Ctx) c12Filters(f *ircFacts) {
 			}
 		}
 		r.Check(ok, "C12.T5", fi.Name(), "replies are stored with their recipient set", c.P.Pos(fi.Node().Pos()), "Id, Data, InterestingFor copied per message", "sendMessages does not store each reply with its own id, bytes and recipient set")
+	}
+}
+
+// c12NoReuse (T7): send() recognises a continuation ("the same line to a further set of recipients") by the POINTER of
+// the *irc.Message; a message object that is modified after it was handed to a send helper and can then reach a send
+// helper again is taken for that continuation: no new line is produced, the later recipients are added to the first
+// line's audience and see the first text. So: no write to a field of a message variable is reachable from a send of it.
+func (c *Ctx) c12NoReuse(f *ircFacts) {
+	r := c.R
+	n := 0
+	for _, fi := range c.P.FuncsIn("ircserver") {
+		if fi.Body() == nil || fi.Obj != nil && f.sendHelpers[fi.Obj] || fi == f.send {
+			continue
+		}
+		info := fi.Info()
+		type sent struct {
+			obj  types.Object
+			call *ast.CallExpr
+		}
+		var sends []sent
+		for _, call := range astx.Calls(fi.Body(), false) {
+			fn := astx.Callee(info, call)
+			if fn == nil || !(f.sendHelpers[fn] || f.send != nil && fn == f.send.Obj) || len(call.Args) == 0 {
+				continue
+			}
+			n++
+			if id, ok := ast.Unparen(call.Args[len(call.Args)-1]).(*ast.Ident); ok {
+				if o := astx.Obj(info, id); o != nil {
+					sends = append(sends, sent{o, call})
+				}
+			}
+		}
+		if len(sends) == 0 {
+			continue
+		}
+		g := c.Graph(fi)
+		for _, s := range sends {
+			from := g.VertexAt(s.call.Pos(), s.call.End())
+			if from < 0 {
+				continue
+			}
+			var reach []bool
+			ast.Inspect(fi.Body(), func(nd ast.Node) bool {
+				if _, isLit := nd.(*ast.FuncLit); isLit {
+					return false
+				}
+				as, ok := nd.(*ast.AssignStmt)
+				if !ok {
+					return true
+				}
+				for _, lhs := range as.Lhs {
+					e := ast.Unparen(lhs)
+					depth := 0
+					for {
+						switch x := e.(type) {
+						case *ast.SelectorExpr:
+							e, depth = ast.Unparen(x.X), depth+1
+							continue
+						case *ast.IndexExpr:
+							e, depth = ast.Unparen(x.X), depth+1
+							continue
+						case *ast.StarExpr:
+							e, depth = ast.Unparen(x.X), depth+1
+							continue
+						}
+						break
+					}
+					id, isID := e.(*ast.Ident)
+					if !isID || depth == 0 || astx.Obj(info, id) != s.obj {
+						continue
+					}
+					if reach == nil {
+						reach = g.Reach(from, nil, nil)
+					}
+					to := g.VertexAt(as.Pos(), as.End())
+					// the send's own vertex counts only through a cycle
+					bad := to >= 0 && reach[to] && (to != from || g.Between(from, from, func(*cfgx.Vertex) bool { return true }))
+					r.Check(!bad, "C12.T7", fi.Name(), "message "+"<msg>"+" is not modified after it was sent (write to "+astx.Str(lhs)[len(id.Name):]+")", c.P.Pos(as.Pos()), "the write is not reachable from the send at "+c.P.Pos(s.call.Pos()),
+						"a message object is modified after it was handed to a send helper and can be sent again: send() takes the identical pointer for a continuation of the previous line, so the later recipients get the FIRST text (e.g. a JOIN for a channel they are not in) and never see theirs")
+				}
+				return true
+			})
+		}
+	}
+	r.Ok("C12.T7", "ircserver", "send sites inspected for re-use of a sent message object", "-", itoa(n)+" send calls")
+	if n < 100 {
+		r.Break("C12.T7: only %d send calls found (expected > 100)", n)
 	}
 }
 
